@@ -9,11 +9,12 @@ ROOT="$(cd "$(dirname "$0")/.." && pwd)"
 REPO="${1:-/repo}"
 SCR="$ROOT/scratch"
 TOOL="$ROOT/tools/rs2lean.py"
-FILES="ascent_base/src/lattice.rs ascent_base/src/lattice/constant_propagation.rs ascent_base/src/lattice/product.rs ascent_macro/src/ascent_mir.rs"
+FILES="ascent_base/src/lattice.rs ascent_base/src/lattice/constant_propagation.rs ascent_base/src/lattice/product.rs ascent_base/src/lattice/dual.rs ascent_macro/src/ascent_mir.rs"
 CP=ascent_base/src/lattice/constant_propagation.rs
 PR=ascent_base/src/lattice/product.rs
 LT=ascent_base/src/lattice.rs
 MIR=ascent_macro/src/ascent_mir.rs
+DU=ascent_base/src/lattice/dual.rs
 
 rm -rf "$SCR"
 mkdir -p "$SCR/pristine" "$SCR/repo"
@@ -97,6 +98,32 @@ mutate "versions_base: v.push(TotalDelta) to v.push(Total)" caught $MIR \
   's/v\.push(MirRelationVersion::TotalDelta)/v.push(MirRelationVersion::Total)/'
 mutate "versions_base: for-loop moved after res.push(new_combination)" caught $MIR \
   '/fn versions_base/,/^   }/ { /for v in &mut res {/,/^         }/ { H; d }; /res\.push(new_combination);/ { G; s/\n\n/\n/ } }'
+mutate "Dual cmp: not reversed, self.0.cmp(&other.0)" caught $DU \
+  's/other\.0\.cmp(&self\.0)/self.0.cmp(\&other.0)/'
+mutate "Dual partial_cmp: not reversed, self.0.partial_cmp(&other.0)" caught $DU \
+  's/other\.0\.partial_cmp(&self\.0)/self.0.partial_cmp(\&other.0)/'
+mutate "Dual meet: delegates to meet instead of join" caught $DU \
+  '/fn meet(/ s/self\.0\.join(other\.0)/self.0.meet(other.0)/'
+mutate "Dual join: receiver and argument swapped, other.0.meet(self.0)" caught $DU \
+  '/fn join(/ s/self\.0\.meet(other\.0)/other.0.meet(self.0)/'
+mutate "Dual meet_mut: delegates to meet_mut instead of join_mut" caught $DU \
+  '/fn meet_mut(/ s/self\.0\.join_mut(/self.0.meet_mut(/'
+mutate "Dual join_mut: delegates to join_mut instead of meet_mut" caught $DU \
+  '/fn join_mut(/ s/self\.0\.meet_mut(/self.0.join_mut(/'
+mutate "Dual top: Dual(T::bottom()) to Dual(T::top())" caught $DU \
+  '/fn top()/ s/T::bottom()/T::top()/'
+mutate "Dual bottom: Dual(T::top()) to Dual(T::bottom())" caught $DU \
+  '/fn bottom()/ s/T::top()/T::bottom()/'
+mutate "Dual: fn meet removed, the trait default would apply (tool must refuse)" caught $DU \
+  '/#\[inline\]/ { N; /fn meet(/d }'
+mutate "Dual: fn lt added to impl PartialOrd (tool must refuse)" caught $DU \
+  '/fn partial_cmp/ s/$/\n   fn lt(\&self, other: \&Self) -> bool { self.0 < other.0 }/'
+mutate "Dual outside the fragment: join_mut with a let statement (tool must refuse)" caught $DU \
+  '/fn join_mut(/ s/{ self\.0\.meet_mut(other\.0) }/{ let r = self.0.meet_mut(other.0); r }/'
+mutate "Dual outside the fragment: meet with a chain of two calls inside Dual(..) (tool must refuse)" caught $DU \
+  '/fn meet(/ s/self\.0\.join(other\.0)/self.0.join(other.0).join(other.0)/'
+mutate "Dual outside the fragment: bound of impl Ord changed to PartialOrd (tool must refuse)" caught $DU \
+  's/^where T: Ord/where T: PartialOrd/'
 mutate "outside the fragment: early return in an Option arm (tool must refuse)" caught $LT \
   '/impl<T: Lattice> Lattice for Option<T>/,/^}/ s/(_, None) => false/(_, None) => return false/'
 mutate "outside the fragment: nested pattern Some(Some(x)) (tool must refuse)" caught $LT \
@@ -105,6 +132,10 @@ mutate "behaviour-preserving: binder renamed in meet, (Top, other) => other to (
   '/fn meet(/,/^   }/ s/(Top, other) => other/(Top, o) => o/'
 mutate "behaviour-preserving: use ConstPropagation::* dropped in join, variants qualified" pass $CP \
   '/fn join(/,/^   }/ { /use ConstPropagation::\*;/d; s/\bBottom\b/Self::Bottom/g; s/Self::Self::/Self::/g; s/\([( ]\)Constant(/\1Self::Constant(/g; s/\([( ]\)Top\b/\1Self::Top/g }'
+mutate "behaviour-preserving: Dual, comment and #[inline] added, bound of impl Ord moved inline" pass $DU \
+  '/fn cmp/ s/{ other/{ \/* reversed *\/ other/; /fn partial_cmp/ s/^/   #[inline]\n/; s/impl<T> Ord for Dual<T>/impl<T: Ord> Ord for Dual<T>/; /^where T: Ord/d'
+mutate "behaviour-preserving: Dual, top and bottom reordered, #[inline] dropped, Self(..) for Dual(..) in join" pass $DU \
+  '/impl<T: BoundedLattice>/,/^}/ { /#\[inline\]/d; /fn top()/{h;d}; /fn bottom()/G }; /fn join(/ s/Dual(self/Self(self/'
 
 echo "== back to the unmodified source"
 reset_repo
